@@ -46,6 +46,7 @@ type Thread struct {
 	started bool
 	done    bool
 	parked  bool // spawned in sequential mode, not scheduled until released
+	daemon  bool // declared by the harness to stay parked for the whole run
 	fn      Value
 	args    []Value
 	top     *frame
@@ -357,8 +358,13 @@ func (in *Interp) runPar(fns []Value) {
 	for i, f := range fns {
 		in.newThread(fmt.Sprintf("par%d", i), f, nil)
 	}
-	// goroutines started before the parallel section (e.g. periodicCleanUp waiting on a ticker that the manual
-	// clock never fires) stay parked: a legal schedule, and they never finish by design
+	// goroutines started before the parallel section become schedulable too, except those the harness declared
+	// daemons (vDaemons: e.g. periodicCleanUp waiting on a ticker that the manual clock never fires)
+	for _, t := range in.threads {
+		if t.parked && !t.daemon {
+			t.parked = false
+		}
+	}
 	_ = first
 	allDone := func() bool {
 		for _, t := range in.threads {
